@@ -92,3 +92,10 @@ Theorem C04_inner_n :
     inner_n_ok (map op_of (f0 :: fs)) (splitN Inner f0 fs).
 Proof. exact splitN_inner. Qed.
 Print Assumptions C04_inner_n.
+
+(* the boolean checks the driver evaluates on the n-ary cases decide the Prop specs of C04_outer_n / C04_inner_n *)
+Theorem C04_exec_spec_sound_n :
+  (forall ops o, outer_n_okb ops o = true <-> outer_n_ok ops o) /\
+  (forall ops o, inner_n_okb ops o = true <-> inner_n_ok ops o).
+Proof. exact (conj outer_n_okb_spec inner_n_okb_spec). Qed.
+Print Assumptions C04_exec_spec_sound_n.
